@@ -877,4 +877,51 @@ theorem C31_lying_probe {σ : Type} (o : Origin σ) (cfg : Cfg) (obj data : Byte
   obtain ⟨s, u, r, ho, h206, hcr, _⟩ := hp 0 _ _ (List.getElem?_eq_getElem hlen) (List.getElem?_eq_getElem (by omega))
   exact honest s u _ r n ho h206 hcr
 
+/-! ### non-vacuity: a concrete honest origin, and the witness of the repaired defect -/
+namespace Examples
+
+def env0 : Env where
+  valid := fun _ => true
+  join := fun _ _ => none
+  presigned := fun _ => false
+  decompress := fun _ _ _ => none
+  bracketOk := fun _ => false
+def obj0 : Bytes := [1, 2, 3]
+/-- HEAD: 200, Content-Length 3, Accept-Ranges bytes; range GET: honest 206 slices -/
+def origin0 : Origin Unit := fun _ req =>
+  match req.method, req.range with
+  | .head, _ => (.ok { status := 200, contentLength := some "3".toList, acceptRanges := some "bytes".toList }, ())
+  | .get, some (s, e) => (.ok { status := 206, segs := [Spec.slice obj0 s e] }, ())
+  | .get, none => (.ok { status := 200, segs := [obj0] }, ())
+def cfg0 : Cfg := { parallelThreshold := 1, chunkSize := 2, maxFetch := 100, maxDecompressed := none, maxRedirects := 2 }
+
+example : (fetchUrl env0 origin0 cfg0 [0, 1] [] () "http://h/o".toList).val = .ok obj0 := by rfl
+example : (fetchUrl env0 origin0 cfg0 [1, 1, 0] [] () "http://h/o".toList).tr.groups.length = 4 := by rfl
+
+example : RangeHonest origin0 obj0 obj0.length := by
+  intro rg data h
+  obtain ⟨s, u, r, ho, _, _, _, hd, _⟩ := h
+  obtain ⟨a, b⟩ := rg
+  simp only [origin0] at ho
+  injection ho with ho
+  subst ho
+  simpa using hd
+
+/-- witness of the repaired defect: HEAD under-reports (2 of 3 bytes) while the 206s name the real complete length -/
+def originLie : Origin Unit := fun _ req =>
+  match req.method, req.range with
+  | .head, _ => (.ok { status := 200, contentLength := some "2".toList, acceptRanges := some "bytes".toList }, ())
+  | .get, some (s, e) =>
+    (.ok {
+      status := 206
+      segs := [Spec.slice obj0 s e]
+      contentRange := some ("bytes ".toList ++ natToDec s ++ '-' :: natToDec e ++ "/3".toList) }, ())
+  | .get, none => (.ok { status := 200, segs := [obj0] }, ())
+
+example : (match (fetchUrl env0 originLie cfg0 [0, 1] [] () "http://h/o".toList).val with
+    | .error (.contentRangeMismatch _) => true
+    | _ => false) = true := by decide +kernel
+
+end Examples
+
 end VgiVerif.C31
